@@ -58,52 +58,170 @@ package mapr
 //@   ensures [no-error] isnil(result)
 //@ type GlobalGroupSet invariant [semaphore] self.semaphore != nil
 
-// ---- tokens --------------------------------------------------------------------
+// ---- tokens (C11) -------------------------------------------------------------
+// The clause keywords are the documented ones (doc/querylanguage.md); the
+// package initialiser is verified to store exactly these.
+//@ global-invariant [documented-keywords] keywords[0] == "select" && keywords[1] == "from" && keywords[2] == "where" && keywords[3] == "set" && keywords[4] == "group" && keywords[5] == "rorder" && keywords[6] == "order" && keywords[7] == "interval" && keywords[8] == "limit" && keywords[9] == "outfile" && keywords[10] == "logformat"
+//@ func init
+//@   assigns keywords
+
+// Tokens: outside double quotes every maximal run without blanks and commas is a
+// bare word; a double-quoted stretch is one token, verbatim. Proved here: what
+// the later stages rely on — bare words are non-empty and free of blanks, no
+// token contains a double quote, none is marked as back-quote stripped yet.
+//@ define tokenShape(tk) == (!tk.quotesStripped && !contains(tk.str, "\"") && implies(tk.isBareword, len(tk.str) > 0 && !contains(tk.str, " ")))
+//@ func tokenize
+//@   assigns nothing
+//@   loop 1 invariant [shape] forall(j, 0, len(tokens), tokenShape(tokens[j]))
+//@   loop 2 invariant [shape] forall(j, 0, len(tokens), tokenShape(tokens[j]))
+//@   ensures [shape] forall(j, 0, len(result), tokenShape(result[j]))
+
+// A token is a keyword iff it is a bare word spelling a clause keyword in any case.
+//@ func (token).isKeyword
+//@   assigns nothing
+//@   loop 1 invariant [none-so-far] -1 <= rangeindex && rangeindex <= 10 && forall(i, 0, rangeindex + 1, lower(t.str) != keywords[i])
+//@   ensures [documented-keywords] result == (t.isBareword && clauseKeyword(lower(t.str)))
+
+// tokensConsume takes the tokens up to the next keyword: the rest starts at the
+// first keyword (k tokens in), nothing before it is a keyword; where none of
+// the k tokens is empty, consumed is those k tokens in order, back-quotes
+// removed (and marked) and otherwise untouched.
 //@ func tokensConsume
 //@   assigns nothing
-//@   ensures [rest-is-suffix] len(result0) <= len(tokens)
+//@   loop 1 invariant [no-keyword-yet] -1 <= rangeindex && rangeindex < len(tokens) && forall(i, 0, rangeindex + 1, !(tokens[i].isBareword && clauseKeyword(lower(tokens[i].str))))
+//@   loop 1 invariant [taken-in-order] len(consumed) <= rangeindex + 1 && implies(forall(i, 0, rangeindex + 1, len(tokens[i].str) > 0), len(consumed) == rangeindex + 1 && forall(i, 0, rangeindex + 1, consumed[i].str == unquote(tokens[i].str) && consumed[i].isBareword == tokens[i].isBareword && consumed[i].quotesStripped == (tokens[i].quotesStripped || backquoted(tokens[i].str))))
+//@   ensures [rest-is-suffix] len(result0) <= len(tokens) && forall(i, 0, len(result0), result0[i] == tokens[(len(tokens) - len(result0)) + i])
+//@   ensures [stops-at-first-keyword] forall(i, 0, (len(tokens) - len(result0)), !(tokens[i].isBareword && clauseKeyword(lower(tokens[i].str)))) && implies(len(result0) > 0, tokens[(len(tokens) - len(result0))].isBareword && clauseKeyword(lower(tokens[(len(tokens) - len(result0))].str)))
+//@   ensures [taken-in-order] len(result1) <= (len(tokens) - len(result0)) && implies(forall(i, 0, (len(tokens) - len(result0)), len(tokens[i].str) > 0), len(result1) == (len(tokens) - len(result0)) && forall(i, 0, (len(tokens) - len(result0)), result1[i].str == unquote(tokens[i].str) && result1[i].isBareword == tokens[i].isBareword && result1[i].quotesStripped == (tokens[i].quotesStripped || backquoted(tokens[i].str))))
 //@ func tokensConsumeStr
 //@   assigns nothing
-//@   ensures [rest-is-suffix] len(result0) <= len(tokens)
+//@   ensures [rest-is-suffix] len(result0) <= len(tokens) && forall(i, 0, len(result0), result0[i] == tokens[(len(tokens) - len(result0)) + i])
+//@   ensures [stops-at-first-keyword] forall(i, 0, (len(tokens) - len(result0)), !(tokens[i].isBareword && clauseKeyword(lower(tokens[i].str)))) && implies(len(result0) > 0, tokens[(len(tokens) - len(result0))].isBareword && clauseKeyword(lower(tokens[(len(tokens) - len(result0))].str)))
+//@   ensures [taken-in-order] len(result1) <= (len(tokens) - len(result0)) && implies(forall(i, 0, (len(tokens) - len(result0)), len(tokens[i].str) > 0), len(result1) == (len(tokens) - len(result0)) && forall(i, 0, (len(tokens) - len(result0)), result1[i] == unquote(tokens[i].str)))
+//@   loop 1 invariant [strings-of-found] -1 <= rangeindex && rangeindex < len(found) && len(strings) == rangeindex + 1 && forall(i, 0, rangeindex + 1, strings[i] == found[i].str)
+// An optional word (as "by" after "group") is skipped in any case.
 //@ func tokensConsumeOptional
 //@   assigns nothing
 //@   ensures [rest-is-suffix] len(result) <= len(tokens) && len(result) + 1 >= len(tokens)
 //@   ensures [nil-kept] implies(len(tokens) >= 1, !isnil(result) || isnil(tokens))
-//@ func (token).isKeyword
-//@   assigns nothing
+//@   ensures [skips-the-word] implies(len(tokens) >= 1 && lower(tokens[0].str) == lower(optional), len(result) == len(tokens) - 1 && forall(i, 0, len(result), result[i] == tokens[i + 1]))
+//@   ensures [else-unchanged] implies(len(tokens) < 1 || lower(tokens[0].str) != lower(optional), len(result) == len(tokens) && forall(i, 0, len(result), result[i] == tokens[i]))
 
-// ---- clause builders -------------------------------------------------------------
+// ---- clause builders (C11) ------------------------------------------------------
+// Spec functions for one select item tk (a token): plainItem: a field name taken
+// literally; aggName / aggField: the two parts of AGG(FIELD); wellformedAgg: the
+// text has exactly that shape. selectItem(tk, sc): sc is what tk denotes.
+//@ define plainItem(st, quoted) == (quoted || (!contains(st, "(") && !contains(st, ")")))
+//@ define aggName(st) == substr(st, 0, indexOf(st, "("))
+//@ define aggField(st) == substr(st, indexOf(st, "(") + 1, indexOf(st, ")") - indexOf(st, "(") - 1)
+//@ define wellformedAgg(st) == (indexOf(st, "(") >= 0 && indexOf(st, "(") < indexOf(st, ")") && indexOf(st, ")") == len(st) - 1 && !contains(substr(st, indexOf(st, "(") + 1, len(st) - indexOf(st, "(") - 2), "("))
+//@ define selectItem(st, quoted, sc) == (sc.FieldStorage == st && ite(plainItem(st, quoted), sc.Field == st && sc.Operation == 5, wellformedAgg(st) && aggOp(aggName(st)) != 0 && sc.Field == aggField(st) && sc.Operation == aggOp(aggName(st))))
+
+// The select list: one item per token, in order, each what its token denotes;
+// one item that denotes nothing rejects the whole clause.
 //@ func makeSelectConditions
 //@   assigns nothing
-//@   ensures [ops-valid] forall(i, 0, len(result0), result0[i].Operation >= 1 && result0[i].Operation <= 7)
 //@   loop 1 invariant [ops-valid] forall(i, 0, len(sel), sel[i].Operation >= 1 && sel[i].Operation <= 7)
+//@   loop 1 invariant [items-in-order] -1 <= rangeindex && rangeindex < len(tokens) && len(sel) == rangeindex + 1 && forall(i, 0, rangeindex + 1, selectItem(tokens[i].str, tokens[i].quotesStripped, sel[i]))
+//@   ensures [ops-valid] forall(i, 0, len(result0), result0[i].Operation >= 1 && result0[i].Operation <= 7)
+//@   ensures [items-in-order] implies(isnil(result1), len(result0) == len(tokens) && forall(i, 0, len(tokens), selectItem(tokens[i].str, tokens[i].quotesStripped, result0[i])))
+//@   ensures [error-gives-nothing] implies(!isnil(result1), len(result0) == 0)
+// One select item: a plain (or back-quoted) field is kept as it is with the
+// "last" aggregation; AGG(FIELD) gives the field, the aggregation's code and
+// the whole text as storage name; anything else with brackets is rejected.
 //@ func makeSelectConditions$1
 //@   assigns nothing
 //@   ensures [op-valid] implies(isnil(result1), result0.Operation >= 1 && result0.Operation <= 7)
-//@ func makeWhereConditions
-//@   assigns nothing
+//@   ensures [denotes] implies(isnil(result1), selectItem(token.str, token.quotesStripped, result0))
+//@   ensures [valid-accepted] implies(plainItem(token.str, token.quotesStripped) || (wellformedAgg(token.str) && aggOp(aggName(token.str)) != 0), isnil(result1))
+// One where condition is three tokens ARG OPERATOR ARG. The operator (in any
+// case) decides the operation; with a float operator both arguments must be
+// bare words and are numbers where they parse as such, else fields; with a
+// string operator a bare word is a field and a quoted token a string.
+//@ define whereArg(tk, floatOp, ty, fl) == ite(floatOp, tk.isBareword && ty == ite(isFloat(tk.str), Float, Field) && implies(isFloat(tk.str), fl == floatOf(tk.str)), ty == ite(tk.isBareword, Field, String))
+//@ define whereItem(t0, t1, t2, wc) == (whereOp(lower(t1.str)) != 0 && wc.Operation == whereOp(lower(t1.str)) && wc.lString == t0.str && wc.rString == t2.str && whereArg(t0, wc.Operation > 9, wc.lType, wc.lFloat) && whereArg(t2, wc.Operation > 9, wc.rType, wc.rFloat))
+//@ define whereValid(t0, t1, t2) == (whereOp(lower(t1.str)) != 0 && implies(whereOp(lower(t1.str)) > 9, t0.isBareword && t2.isBareword))
 //@ func makeWhereConditions$1
 //@   assigns nothing
+//@   ensures [denotes] implies(isnil(result2), len(tokens) >= 3 && whereItem(tokens[0], tokens[1], tokens[2], result0) && len(result1) == len(tokens) - 3 && forall(i, 0, len(result1), result1[i] == tokens[i + 3]))
+//@   ensures [valid-accepted] implies(len(tokens) >= 3 && whereValid(tokens[0], tokens[1], tokens[2]), isnil(result2))
 //@ func (*whereCondition).fill
 //@   requires [three-tokens] len(tokens) >= 3
 //@   assigns *wc
-//@   ensures [rest] implies(isnil(result1), len(result0) == len(tokens) - 3)
-//@ func makeSetConditions
+//@   ensures [rest] implies(isnil(result1), len(result0) == len(tokens) - 3 && forall(i, 0, len(result0), result0[i] == tokens[i + 3]))
+//@   ensures [operation-kept] wc.Operation == old(wc.Operation)
+//@   ensures [arguments] implies(isnil(result1), wc.lString == tokens[0].str && wc.rString == tokens[2].str && whereArg(tokens[0], wc.Operation > 9, wc.lType, wc.lFloat) && whereArg(tokens[2], wc.Operation > 9, wc.rType, wc.rFloat))
+//@   ensures [valid-accepted] implies(implies(wc.Operation > 9, tokens[0].isBareword && tokens[2].isBareword), isnil(result1))
+// The where clause: conditions one after the other, an optional "and" between.
+//@ func makeWhereConditions
 //@   assigns nothing
-//@ func makeSetConditions$1
-//@   assigns nothing
+//@   loop 1 step [one-condition-per-round] len(prev(tokens)) >= 3 && len(where) == prev(len(where)) + 1 && whereItem(prev(tokens)[0], prev(tokens)[1], prev(tokens)[2], where[len(where) - 1]) && forall(i, 0, prev(len(where)), where[i] == prev(where)[i])
+//@   loop 1 step [three-tokens-and-an-optional-and] len(tokens) == len(prev(tokens)) - ite(len(prev(tokens)) >= 4 && lower(prev(tokens)[3].str) == "and", 4, 3) && forall(i, 0, len(tokens), tokens[i] == prev(tokens)[i + len(prev(tokens)) - len(tokens)])
+//@   ensures [error-gives-nothing] implies(!isnil(err), len(where) == 0)
+// One set assignment is three tokens $VARIABLE = VALUE. A back-quoted value is
+// a field name taken literally; a value ending in ")" is a function call
+// stack; otherwise a number where it parses as one, else a field.
+//@ define setHead(t0, t1, t2, sc) == (t1.str == "=" && t0.isBareword && hasPrefix(t0.str, "$") && sc.lString == t0.str)
+//@ define setItem(t0, t1, t2, sc) == (setHead(t0, t1, t2, sc) && ite(t2.quotesStripped, sc.rType == Field && sc.rString == t2.str, ite(hasSuffix(t2.str, ")"), sc.rType == FunctionStack && !hasSuffix(sc.rString, ")"), sc.rString == t2.str && sc.rType == ite(isFloat(t2.str), Float, Field) && implies(isFloat(t2.str), sc.rFloat == floatOf(t2.str)))))
 //@ func initSetConditions
 //@   requires [sc] sc != nil
 //@   assigns *sc
 //@   ensures [three-tokens] implies(isnil(result), len(tokens) >= 3)
+//@   ensures [head] implies(isnil(result), setHead(tokens[0], tokens[1], tokens[2], sc) && sc.rString == tokens[2].str && sc.rType == Field)
+//@   ensures [valid-accepted] implies(len(tokens) >= 3 && tokens[1].str == "=" && tokens[0].isBareword && hasPrefix(tokens[0].str, "$"), isnil(result))
+//@ func makeSetConditions$1
+//@   assigns nothing
+//@   ensures [denotes] implies(isnil(result2), len(tokens) >= 3 && setItem(tokens[0], tokens[1], tokens[2], result0) && len(result1) == len(tokens) - 3 && forall(i, 0, len(result1), result1[i] == tokens[i + 3]))
+//@ func makeSetConditions
+//@   assigns nothing
+//@   loop 1 step [one-assignment-per-round] len(prev(tokens)) >= 3 && len(set) == prev(len(set)) + 1 && setItem(prev(tokens)[0], prev(tokens)[1], prev(tokens)[2], set[len(set) - 1]) && forall(i, 0, prev(len(set)), set[i] == prev(set)[i])
+//@   loop 1 step [three-tokens-per-round] len(tokens) == len(prev(tokens)) - ite(len(prev(tokens)) >= 4 && lower(prev(tokens)[3].str) == lower(","), 4, 3) && forall(i, 0, len(tokens), tokens[i] == prev(tokens)[i + len(prev(tokens)) - len(tokens)])
+//@   ensures [error-gives-nothing] implies(!isnil(err), len(set) == 0)
 
 // ---- query -------------------------------------------------------------------------
+// A query starts from the defaults: 5 s interval, no limit, no outfile.
 //@ func NewQuery
 //@   ensures [nonnil-unless-empty] implies(isnil(result1) && queryStr != "", result0 != nil)
+//@   at-call ).parse [defaults] arg0.Interval == 5000000000 && arg0.Limit == -1 && arg0.Outfile == nil && len(arg0.Select) == 0 && len(arg0.GroupBy) == 0 && arg0.OrderBy == "" && !arg0.ReverseOrder && arg0.Table == ""
+// After the clauses: there must be a select list; without a group clause the
+// first selected field is the group key; an order field must be selected.
 //@ func (*Query).parse
 //@   assigns *q
+//@   ensures [select-required] implies(isnil(result), len(q.Select) >= 1)
+//@   ensures [grouped] implies(isnil(result), len(q.GroupBy) >= 1)
+//@   ensures [order-field-selected] implies(isnil(result) && q.OrderBy != "", exists(i, 0, len(q.Select), q.Select[i].FieldStorage == q.OrderBy))
+// parseTokens takes one clause per round of its loop. T = prev(tokens) is the
+// token list at the start of a round: T[0] is the clause keyword (any case),
+// its arguments are the tokens up to the next keyword. kwTok: a keyword token;
+// argTok: a non-empty token that is no keyword; one(T, j): exactly one argument,
+// at position j. by(T): where the arguments start after an optional "by".
+//@ define kwTok(tk) == (tk.isBareword && clauseKeyword(lower(tk.str)))
+//@ define argTok(tk) == (!kwTok(tk) && len(tk.str) > 0)
+//@ define one(T, j) == (len(T) > j && argTok(T[j]) && (len(T) == j + 1 || kwTok(T[j + 1])))
+//@ define by(T) == ite(len(T) >= 2 && lower(T[1].str) == "by", 2, 1)
+//@ define argsNonEmpty(T, n) == forall(i, 1, n, len(T[i].str) > 0)
+//@ define isNumber(st) == (toInt(st) >= 0 && len(st) <= 18)
 //@ func (*Query).parseTokens
 //@   assigns *q
+//@   loop 1 step [next-clause] len(tokens) < len(prev(tokens)) && forall(i, 0, len(tokens), tokens[i] == prev(tokens)[i + len(prev(tokens)) - len(tokens)]) && (len(tokens) == 0 || kwTok(tokens[0]))
+//@   loop 1 step [from] implies(lower(prev(tokens)[0].str) == "from" && one(prev(tokens), 1), q.Table == upper(unquote(prev(tokens)[1].str)) && len(tokens) == len(prev(tokens)) - 2)
+//@   loop 1 step [limit] implies(lower(prev(tokens)[0].str) == "limit" && one(prev(tokens), 1) && isNumber(unquote(prev(tokens)[1].str)), q.Limit == toInt(unquote(prev(tokens)[1].str)) && len(tokens) == len(prev(tokens)) - 2)
+//@   loop 1 step [interval] implies(lower(prev(tokens)[0].str) == "interval" && one(prev(tokens), 1) && isNumber(unquote(prev(tokens)[1].str)), q.Interval == 1000000000 * toInt(unquote(prev(tokens)[1].str)))
+//@   loop 1 step [logformat] implies(lower(prev(tokens)[0].str) == "logformat" && one(prev(tokens), 1), q.LogFormat == unquote(prev(tokens)[1].str))
+//@   loop 1 step [order] implies(lower(prev(tokens)[0].str) == "order" && one(prev(tokens), by(prev(tokens))), q.OrderBy == unquote(prev(tokens)[by(prev(tokens))].str) && q.ReverseOrder == prev(q.ReverseOrder))
+//@   loop 1 step [rorder] implies(lower(prev(tokens)[0].str) == "rorder" && one(prev(tokens), by(prev(tokens))), q.OrderBy == unquote(prev(tokens)[by(prev(tokens))].str) && q.ReverseOrder)
+//@   loop 1 step [outfile] implies(lower(prev(tokens)[0].str) == "outfile" && one(prev(tokens), 1), q.Outfile != nil && q.Outfile.FilePath == unquote(prev(tokens)[1].str) && !q.Outfile.AppendMode)
+//@   loop 1 step [outfile-append] implies(lower(prev(tokens)[0].str) == "outfile" && len(prev(tokens)) >= 3 && prev(tokens)[1].str == "append" && one(prev(tokens), 2), q.Outfile != nil && q.Outfile.FilePath == unquote(prev(tokens)[2].str) && q.Outfile.AppendMode)
+//@   loop 1 step [group] implies(lower(prev(tokens)[0].str) == "group" && forall(i, by(prev(tokens)), len(prev(tokens)) - len(tokens), len(prev(tokens)[i].str) > 0), len(q.GroupBy) == len(prev(tokens)) - len(tokens) - by(prev(tokens)) && forall(i, 0, len(q.GroupBy), q.GroupBy[i] == unquote(prev(tokens)[by(prev(tokens)) + i].str)) && q.GroupKey == join(q.GroupBy, ","))
+//@   loop 1 step [select] implies(lower(prev(tokens)[0].str) == "select" && forall(i, 1, len(prev(tokens)) - len(tokens), len(prev(tokens)[i].str) > 0), len(q.Select) == len(prev(tokens)) - len(tokens) - 1 && forall(i, 0, len(q.Select), selectItem(unquote(prev(tokens)[1 + i].str), prev(tokens)[1 + i].quotesStripped || backquoted(prev(tokens)[1 + i].str), q.Select[i])))
+//@   loop 1 step [from-one-table] !(argsNonEmpty(prev(tokens), len(prev(tokens)) - len(tokens)) && lower(prev(tokens)[0].str) == "from" && len(prev(tokens)) >= 3 && argTok(prev(tokens)[1]) && argTok(prev(tokens)[2]))
+//@   loop 1 step [outfile-arguments] !(argsNonEmpty(prev(tokens), len(prev(tokens)) - len(tokens)) && lower(prev(tokens)[0].str) == "outfile" && len(prev(tokens)) >= 3 && argTok(prev(tokens)[1]) && argTok(prev(tokens)[2]) && unquote(prev(tokens)[1].str) != "append")
+//@   loop 1 step [limit-one-argument] !(argsNonEmpty(prev(tokens), len(prev(tokens)) - len(tokens)) && lower(prev(tokens)[0].str) == "limit" && len(prev(tokens)) >= 3 && argTok(prev(tokens)[1]) && argTok(prev(tokens)[2]))
+//@   loop 1 step [interval-one-argument] !(argsNonEmpty(prev(tokens), len(prev(tokens)) - len(tokens)) && lower(prev(tokens)[0].str) == "interval" && len(prev(tokens)) >= 3 && argTok(prev(tokens)[1]) && argTok(prev(tokens)[2]))
+//@   loop 1 step [logformat-one-argument] !(argsNonEmpty(prev(tokens), len(prev(tokens)) - len(tokens)) && lower(prev(tokens)[0].str) == "logformat" && len(prev(tokens)) >= 3 && argTok(prev(tokens)[1]) && argTok(prev(tokens)[2]))
+//@   loop 1 step [order-one-argument] !(argsNonEmpty(prev(tokens), len(prev(tokens)) - len(tokens)) && lower(prev(tokens)[0].str) == "order" && len(prev(tokens)) >= by(prev(tokens)) + 2 && argTok(prev(tokens)[by(prev(tokens))]) && argTok(prev(tokens)[by(prev(tokens)) + 1]))
+//@   loop 1 step [rorder-one-argument] !(argsNonEmpty(prev(tokens), len(prev(tokens)) - len(tokens)) && lower(prev(tokens)[0].str) == "rorder" && len(prev(tokens)) >= by(prev(tokens)) + 2 && argTok(prev(tokens)[by(prev(tokens))]) && argTok(prev(tokens)[by(prev(tokens)) + 1]))
+//@   loop 1 step [only-its-own-field] implies(lower(prev(tokens)[0].str) != "from", q.Table == prev(q.Table)) && implies(lower(prev(tokens)[0].str) != "limit", q.Limit == prev(q.Limit)) && implies(lower(prev(tokens)[0].str) != "interval", q.Interval == prev(q.Interval)) && implies(lower(prev(tokens)[0].str) != "logformat", q.LogFormat == prev(q.LogFormat)) && implies(lower(prev(tokens)[0].str) != "order" && lower(prev(tokens)[0].str) != "rorder", q.OrderBy == prev(q.OrderBy)) && implies(lower(prev(tokens)[0].str) != "rorder", q.ReverseOrder == prev(q.ReverseOrder)) && implies(lower(prev(tokens)[0].str) != "group", q.GroupKey == prev(q.GroupKey))
 //@ func (*Query).WhereClause
 //@   assigns nothing
 //@ func (*Query).SetClause
